@@ -41,7 +41,12 @@ m = {
     }],
     "checks": checks,
     "not_applicable": na,
-    "notes": "See DESIGN.md. Exit codes: 0 held, 1 violation (VIOLATION line), 2 infrastructure failure.",
+    "notes": ("See DESIGN.md (sections 7.4-7.9: triage, seeded changes, bug hunts). Exit codes: 0 held, 1 violation (VIOLATION "
+              "line), 2 infrastructure failure. Known findings (committed list, never written at run time): known_findings.json "
+              "- 'findings' entries (C01/C07 Woodbury cancellation, C10 child streams from the private seed sequence, C13 "
+              "disk-full cache write) print a KNOWN-FINDING line and leave the exit code at 0; 'fixed' entries document the "
+              "37 'fix:' commits in /repo and suppress nothing. Checks honour VERIF_SEED, VERIF_TIER, and VERIF_REPO (private "
+              "copy of the repository; evidence/ is only written for /repo itself)."),
 }
 json.dump(m, open(os.path.join(HERE, "MANIFEST.json"), "w"), indent=1)
 print("claimed", sorted(CLAIMED), "not_applicable", len(na))
